@@ -3,6 +3,7 @@
 -/
 import AuthProofs.StateInventory
 import AuthProofs.Ladder
+import AuthProofs.CodeEquivResp
 namespace AuthProps.C14
 open AuthModel AuthModel.Oidc
 
@@ -37,6 +38,34 @@ theorem cookie_and_logout_independent_of_secret (cfg : Cfg) (secret' uri : Str) 
 theorem ok_adds_only_tokens (cfg : Cfg) (prev : Headers) (t : Tokens) :
     allow cfg prev t = { code := cOK, message := [], http := .ok (prev ++ encodeTokens cfg t) } := rfl
 
+/-! ### the same, about the code as translated from the source (Generated/CodeOidc.lean) -/
+
+/-- THE CODE's fixed denials, composed as the call sites of oidc.go compose them, are the model's `deny code` and `sessErr`:
+    the gRPC code, the no-cache pair or the fixed body, nothing else - and whatever HTTP part an earlier filter left on
+    the response is replaced, not merged -/
+theorem code_fixed_denials (env : Go.Env) (resp : Pb.CheckResponse) (code : Int) (hr : resp.isNil = false) (hc : 0 ≤ code) :
+    (∃ r, (do let d ← Code.newDenyResponse env; Code.setDenyResponse env resp d code) = .ok r ∧
+      CodeEquiv.respOf r = { code := code.toNat, http := .denied { headers := stdHeaders } }) ∧
+    (∃ r, (do let d ← Code.newSessionErrorResponse env; Code.setDenyResponse env resp d 16) = .ok r ∧
+      CodeEquiv.respOf r = { code := cUnauthenticated, http := .denied { body := sessionErrorBody } }) :=
+  ⟨CodeEquiv.code_deny env resp code hr hc, CodeEquiv.code_sessErr env resp hr⟩
+
+/-- THE CODE's OK answer: gRPC OK, no body, and the headers are what an earlier filter left followed by exactly the
+    token headers of `encodeTokensToHeaders` -/
+theorem code_ok_adds_only_tokens (env : Go.Env) (o : Pb.OidcHandler) (resp : Pb.CheckResponse) (t : Pb.TokenResponse) (cfg : Cfg) (tok : Tokens)
+    (hr : resp.isNil = false) (ho : o.isNil = false) (hc : o.config.isNil = false) (ht : t.isNil = false)
+    (hid : cfg.idHeader = o.config.IdToken.GetHeader) (hpre : cfg.idPreamble = o.config.IdToken.GetPreamble)
+    (hacc : cfg.access = if o.config.AccessToken.isNil then none else some (o.config.AccessToken.Header, o.config.AccessToken.Preamble))
+    (h1 : tok.idToken = t.IDToken) (h2 : tok.accessToken = t.AccessToken) :
+    ∃ r, Code.allowResponse env o resp t = .ok r ∧
+      CodeEquiv.respOf r = { code := cOK, message := [], http := .ok (CodeEquiv.prevOk resp ++ encodeTokens cfg tok) } :=
+  CodeEquiv.code_allow env o resp t cfg tok hr ho hc ht hid hpre hacc h1 h2
+
+example : (Code.allowResponse {} { config := { IdToken := { isNil := false, Header := AuthModel.B "authorization", Preamble := AuthModel.B "Bearer" } } }
+      Pb.CheckResponse.new { IDToken := AuthModel.B "tok" }).map CodeEquiv.respOf
+    = .ok { code := cOK, http := .ok [(AuthModel.B "authorization", AuthModel.B "Bearer tok")] } := by decide
+
+
 /-- NO HIDDEN STATE: the model treats a check as a function of (configuration, request, store answers, clock, IdP and key-source answers, entropy); that is a faithful reading of the code only if nothing else survives from one check to the next. Regenerated on every run: every package-level variable and struct field of internal/server, internal/authz, internal/http, internal/oidc is the classified expectation, and handlers, filter, HTTP helpers and the Redis store own no mutable state (no verdict cache, handler cache, object pool, single-flight group or per-process copy of session data). -/
 theorem no_hidden_state : CheckPathInventory := check_path_inventory
 
@@ -49,3 +78,5 @@ end AuthProps.C14
 #print axioms AuthProps.C14.cookie_and_logout_independent_of_secret
 #print axioms AuthProps.C14.ok_adds_only_tokens
 #print axioms AuthProps.C14.no_hidden_state
+#print axioms AuthProps.C14.code_fixed_denials
+#print axioms AuthProps.C14.code_ok_adds_only_tokens
